@@ -108,9 +108,65 @@ def _large_cases(th):
                'id_step': 1, 'preexisting': False}
 
 
+def _huge_cases(th):
+    # spikes beyond sample 2**31 (thorough: 2**32) of a sparse 20-hour recording
+    for i, n in enumerate([2 ** 31 + 200] + ([2 ** 32 + 200] if th else [])):
+        yield {'k': 'huge', 'n': n, 'salt': i, 'sdt': ['uint64', 'int64'][i % 2]}
+
+
+def _check_huge(case):
+    from phylib.io.traces import get_ephys_reader
+    from .. import rec
+    n, nsw = case['n'], 9
+    with env.scratch() as d:
+        R = rec.SparseRecording(d, n, nch=3, dtype='int16', block=200, salt=case['salt'])
+        r = must_return('get_ephys_reader', get_ephys_reader, R.path, n_channels=3,
+                        dtype=np.int16, sample_rate=30000.)
+        try:
+            b = n - 200
+            spikes = [2, 150, 150, b + 7, b + 100, n - 3, n - 1]
+            chans = [[0, 1], [2, 0], [1, -1], [0, 2], [-1, 1], [1, 0], [2, 2]]
+
+            def win(s_, ch):
+                rows = list(range(s_ - nsw // 2, s_ - nsw // 2 + nsw))
+                block = np.zeros((nsw, 3), dtype=np.int16)
+                ok = [k for k, q in enumerate(rows) if 0 <= q < n]
+                block[ok] = R.rows([rows[k] for k in ok])
+                out = np.zeros((nsw, len(ch)), dtype=np.int16)
+                for j, c in enumerate(ch):
+                    if c != -1:
+                        out[:, j] = block[:, c]
+                return out
+            ss = np.array(spikes, dtype=case['sdt'])
+            sc = np.array(chans, dtype=np.int32)
+            exp = np.stack([win(s_, c) for s_, c in zip(spikes, chans)])
+            for i in range(len(spikes)):
+                out = must_return('extract_waveforms', extract_waveforms, r, ss[i:i + 1],
+                                  np.array(chans[i]), n_samples_waveforms=nsw)
+                same_array('extract_waveforms (spike at sample %d of %d)' % (spikes[i], n),
+                           out[0], exp[i], key='extract')
+            path = d / 'wave.npy'
+            must_return('export_waveforms', export_waveforms, path, r, ss, sc,
+                        n_samples_waveforms=nsw, sample2unit=0.5)
+            try:
+                loaded = np.load(path)
+            except Exception as e:
+                raise Violation('exported waveform file does not load: %s' % type(e).__name__,
+                                key='export-unloadable')
+            same_array('exported waveforms (spikes beyond sample 2**31)', loaded,
+                       exp.astype(np.float64) * 0.5, key='export', dtype=False)
+        finally:
+            for m in getattr(r, '_mmaps', []) or []:
+                m._mmap.close()
+    return dict(edge=True, both=False, minus1=True)
+
+
 def drivers(tier):
     th = tier == 'thorough'
-    ds = [dict(kind='enum', name='large', exhaustive=False,
+    ds = [dict(kind='enum', name='huge', exhaustive=False,
+               bound='a sparse recording of 2**31 + 200 (thorough: 2**32 + 200) samples',
+               cases=lambda: _huge_cases(th)),
+          dict(kind='enum', name='large', exhaustive=False,
                bound='one chunk of waveforms beyond 16 MiB (thorough: 32 MiB)',
                cases=lambda: _large_cases(th)),
           dict(kind='hyp', name='routes', strategy=_case(), examples=200000 if th else 20000)]
@@ -140,6 +196,8 @@ def check(case):
     if case.get('k') == 'model':
         from . import c03_model
         return c03_model.check(case)
+    if case.get('k') == 'huge':
+        return _check_huge(case)
     lay, nsw = case['lay'], case['nsw']
     spikes = case['spikes']
     ns = len(spikes)
@@ -220,6 +278,8 @@ def classify(case, info):
     if case.get('k') == 'model':
         from . import c03_model
         return c03_model.classify(case, info)
+    if case.get('k') == 'huge':
+        return ['huge:%d-samples' % case['n'], 'sdt:' + case['sdt']], True
     lay = case['lay']
     labels = ['backend:' + lay['backend'], 'sdt:' + case['sdt'], 'factor:%r' % case['factor']]
     nt = False
